@@ -21,7 +21,7 @@ import itertools
 from asyncio import tasks
 from typing import Any, Callable
 
-HORIZON = 20000
+HORIZON = 1500  # loop iterations per execution: clean executions need < 100 (measured maximum of the quick tiers: 77); a runaway one is cut off quickly
 
 
 class Deadlock(BaseException):
